@@ -66,6 +66,10 @@ CANARIES = [
     ('c04-sqlite-strip-space', 'C04', 'mindsdb_sql/parser/parser.py', "        return p[0].strip('\\'')", "        return p[0].strip('\\' ')", 'C04.dec.sqlite.QUOTE_STRING'),
     ('c04-harmless-slice', 'C04', 'mindsdb_sql/parser/parser.py', "        return p[0].strip('\\'')", "        return p[0][1:-1]", None),
     ('c04-int-plus-one', 'C04', 'mindsdb_sql/parser/dialects/mindsdb/parser.py', "    def integer(self, p):\n        return int(p[0])", "    def integer(self, p):\n        return int(p[0]) + (1 if len(p[0]) > 18 else 0)", 'C04.int.mindsdb'),
+    ('c04-nowrap-dollar', 'C04', 'mindsdb_sql/parser/ast/select/identifier.py', "re.compile(r'[a-zA-Z_][a-zA-Z_0-9]*')", "re.compile(r'[a-zA-Z_$][a-zA-Z_$0-9]*')", 'C04.ident.enc.mindsdb.bare'),
+    ('c04-isidentifier', 'C04', 'mindsdb_sql/parser/ast/select/identifier.py', "not no_wrap_identifier_regex.fullmatch(part)", "not part.isidentifier()", 'C04.ident.enc.mindsdb.bare'),
+    ('c04-reserved-underscore', 'C04', 'mindsdb_sql/parser/ast/select/identifier.py', "            if isinstance(pattern, str) and re.fullmatch(pattern, word, re.IGNORECASE):", "            if False:", 'C04.ident.enc.mindsdb.bare.PRIMARY_KEY'),
+    ('c04-harmless-guard-rewrite', 'C04', 'mindsdb_sql/parser/ast/select/identifier.py', "not no_wrap_identifier_regex.fullmatch(part)", "not re.fullmatch('[a-zA-Z_][a-zA-Z_0-9]*', part)", None),
     ('c16-shift-off', 'C16', 'mindsdb_sql/parser/utils.py', "            shift = last_pos + 1", "            shift = last_pos", 'C16.tts.step.new-line'),
     ('c16-pad-off', 'C16', 'mindsdb_sql/parser/utils.py', "        line += ' '*(token.index - shift - len(line))", "        line += ' '*(token.index - shift - len(line) - 1)", 'C16.tts.step'),
     ('c16-no-last-line', 'C16', 'mindsdb_sql/parser/utils.py', "    # last line\n    content += line\n    return content", "    # last line\n    return content", 'C16.tts.exit'),
